@@ -67,10 +67,12 @@ def gen(ctx):
                     cf["rperr"] = rng.choice([1, 2, 4, 50, 52])
                     cf["file"] = pic
                 nreq = int(2.8 * (size // limit)) + 10
-                labels = ["D0", "a1:" + hexs(URI)]
+                # the order of the header lines of a picture reply is the server's business (hdrN uris: type first, a foreign line among them)
+                uri = URI if rng.random() < 0.6 else rng.choice(["hdr1/a.flac", "hdr2/b.flac", "hdr3/c.flac"])
+                labels = ["D0", "a1:" + hexs(uri)]
                 if rng.random() < 0.25:
                     # the application has dropped its ConnectionEvents (allowed) and subsystems change before / while the picture loads
-                    labels = ["D0", "S*", "Z"] + ["N:" + hexs(rng.choice(L.SUBSYSTEMS)) for _ in range(rng.choice([0, 1, 2]))] + ["a1:" + hexs(URI)]
+                    labels = ["D0", "S*", "Z"] + ["N:" + hexs(rng.choice(L.SUBSYSTEMS)) for _ in range(rng.choice([0, 1, 2]))] + ["a1:" + hexs(uri)]
                 other = 1
                 for k in range(nreq):
                     labels += ["S*"]
